@@ -54,7 +54,17 @@ Pairs(t) == LET KS == SetToSeq(Keys(t))
                 n == Len(KS)
             IN  {CaseOf(t, <<KS[pr[1]], KS[pr[2]]>>, <<PoolOf(KS[pr[1]])[c[1]], PoolOf(KS[pr[2]])[c[2]]>>) :
                     pr \in {q \in (1..n) \X (1..n) : q[1] < q[2]}, c \in {<<1, 3>>, <<3, 1>>, <<2, 4>>, <<4, 3>>}}
-Corpus == UNION {Singles(t) \cup Pairs(t) : t \in MyTerms}
+\* chained maps (they tell the most-specific strategy from the most-general one): every symbol child of a
+\* sub-term s is replaced by a symbol that does not occur in the formula, and the REBUILT s is itself a key
+Ren(k) == CASE k = P -> Sym("c1", TBool) [] k = Q -> Sym("c2", TBool) [] k = X -> Sym("u1", TInt) [] k = Y -> Sym("u2", TInt)
+Chained(t) ==
+    {LET kids == SetToSeq({s.a[j] : j \in 1..Len(s.a)} \cap {P, Q, X, Y})
+         key  == [s EXCEPT !.a = [j \in 1..Len(s.a) |-> IF s.a[j] \in {P, Q, X, Y} THEN Ren(s.a[j]) ELSE s.a[j]]]
+     IN  CaseOf(t, kids \o <<key>>, [j \in 1..Len(kids) |-> Ren(kids[j])] \o <<PoolOf(s)[c]>>) :
+        s \in {u \in SubTerms(t) : u.op \notin {"forall", "exists", "symbol"} \cup ConstOps
+                                    /\ \E j \in 1..Len(u.a) : u.a[j] \in {P, Q, X, Y}},
+        c \in {1, 2}}
+Corpus == UNION {Singles(t) \cup Pairs(t) \cup Chained(t) : t \in MyTerms}
 
 VARIABLE done
 Init == done = FALSE /\ LET c == SetToSeq(Corpus)
